@@ -498,6 +498,10 @@ func c03Levels(tier string) []core.Level {
 					emit(core.Case{Fam: "fresh", N: []int{pair, how}})
 				}
 			}
+			// comments that open or close with a '-' marker (nothing to trim next to them) and begin with a multi-byte character
+			for _, cm := range []string{"{#é -#}", "{#-é#}", "{#- € -#}", "{#\U0001F600-#}", "{#-#}", "{#--#}", "{#é#}", "{# x é -#}"} {
+				emit(core.Case{Fam: "visitor", Src: "a" + cm + "b{{ v }}" + cm + "c", Exp: "abVc"})
+			}
 			ls := c03Leaves(false)
 			for i, a := range ls {
 				p := c03Concat(c03Text("t"), a, c03Text("u"))
